@@ -9,14 +9,15 @@ Orders == IF Wide THEN WideOrders ELSE UNION {SetToSeqs(S) : S \in SUBSET Names 
 Rows(o) == IF Wide THEN {S \in SUBSET Rng(o) : Cardinality(S) <= MaxRow \/ S = Rng(o)} ELSE SUBSET Rng(o)
 
 FInit == cls \in Orders /\ phase = "defined" /\ wsets = <<>> /\ store = NoStore /\ back = <<>>
-Write == \E n \in 1..MaxObj : \E sets \in [1..n -> Rows(cls)] : WriteAny(sets)
+Write == phase = "defined" /\ \E n \in 1..MaxObj : \E sets \in [1..n -> Rows(cls)] : WriteAny(sets)
 Redefine == \E o \in Orders : RedefineAny(o)
 ExtendOne == \E n \in Names : Extend(n)
 ReadBack == \E ext \in SetToSeqs(Missing) : Read(ext)
-FNext == Write \/ ExtendOne \/ Redefine \/ ReadBack
+FNext == Write \/ RefuseUnset \/ ExtendOne \/ Redefine \/ ReadBack
 Bound == TLCGet("level") <= 5
 Srt(S) == SetToSortSeq(S, LAMBDA a, b : IndexIn(Base, a) < IndexIn(Base, b))
-EmitRead == (phase = "stored" /\ phase' = "read") =>
+EmitRead == /\ (phase = "defined" /\ phase' = "refused") => PrintT(ToJson([w |-> cls, unset |-> TRUE]))
+            /\ (phase = "stored" /\ phase' = "read") =>
               PrintT(ToJson([w |-> store.order, sets |-> [i \in Ix(wsets) |-> Srt(wsets[i])], rows |-> store.rows,
                              r |-> cls, now |-> cls', back |-> [i \in Ix(back') |-> Srt(back'[i])]]))
 =====================================================================================================
